@@ -854,11 +854,11 @@ def compare(world, toks, exps, answers_line):
     return None
 
 
-def run_line(world, toks, nchan):
+def run_line(world, toks, nchan, wc_close=True):
     adj = world.adj
-    return "run %d %d %d %d %d y %d %s" % (
+    return "run %d %d %d %d %d%d y %d %s" % (
         adj.channel_request_lookahead, adj.send_bytes, adj.outbuf_high_watermark, world.socks[7].sndbuf,
-        1 if world.use_poll else 0, nchan, " ".join(toks))
+        1 if world.use_poll else 0, 1 if wc_close else 0, nchan, " ".join(toks))
 
 
 # ---------------------------------------------------------------------------------
@@ -1184,10 +1184,11 @@ class ListenerWorld(FaultWorld):
         return toks, exps
 
 
-def run_line_listener(world, toks):
+def run_line_listener(world, toks, wc_close=True):
     adj = world.adj
-    return "run %d %d %d %d 0 a 0 %s" % (
-        adj.channel_request_lookahead, adj.send_bytes, adj.outbuf_high_watermark, world.sndbuf, " ".join(toks))
+    return "run %d %d %d %d 0%d a 0 %s" % (
+        adj.channel_request_lookahead, adj.send_bytes, adj.outbuf_high_watermark, world.sndbuf,
+        1 if wc_close else 0, " ".join(toks))
 
 
 def compare_listener(toks, exps, answers_line):
@@ -1216,3 +1217,983 @@ def compare_listener(toks, exps, answers_line):
                 if m[key] != st[key]:
                     return "token %d %s: channel %s field %s model=%r real=%r" % (i, tok, FDS[fd], key, m[key], st[key])
     return None
+
+
+# ---------------------------------------------------------------------------------
+# shape audit: the statements of the modelled methods that the model's instructions stand for
+
+WATCH_CALLS = {
+    "handle_close", "handle_error", "handle_read", "handle_write", "handle_accept", "handle_expt", "handle_connect_event",
+    "handle_read_event", "handle_write_event", "handle_expt_event", "close", "del_channel", "add_channel", "send", "recv",
+    "accept", "_flush_some", "_flush_exception", "_flush_some_if_lockable", "_flush_outbufs_below_high_watermark",
+    "send_continue", "pull_trigger", "add_task", "notify", "wait", "acquire", "release", "getsockopt", "setblocking",
+    "setsockopt", "set_socket_options", "channel_class", "received", "service", "select", "poll", "read", "write",
+    "_exception", "readwrite", "get", "items", "append", "pop", "skip", "flush", "register", "set_socket", "fix_addr",
+    "sleep", "__init__", "cancel",
+}
+WATCH_ATTRS = {
+    "connected", "will_close", "close_when_flushed", "total_outbufs_len", "requests", "request", "socket", "_fileno",
+    "sent_continue", "outbufs", "accepting", "connecting", "_map", "active_channels", "current_outbuf_count",
+    "expect_continue", "headers_finished", "completed", "empty", "close_on_finish", "error", "sendbuf_len",
+}
+WATCH_NAMES = {"_DISCONNECTED", "EWOULDBLOCK", "ECONNABORTED", "EAGAIN", "EINTR", "ENOTCONN", "EBADF",
+               "_reraised_exceptions", "ClientDisconnected", "OSError", "Exception", "TypeError", "map", "fd", "ac"}
+
+SHAPE_METHODS = [
+    ("wasyncore.py", None, "read"), ("wasyncore.py", None, "write"), ("wasyncore.py", None, "_exception"),
+    ("wasyncore.py", None, "readwrite"), ("wasyncore.py", None, "poll"), ("wasyncore.py", None, "poll2"),
+    ("wasyncore.py", None, "loop"),
+    ("wasyncore.py", "dispatcher", "__init__"), ("wasyncore.py", "dispatcher", "add_channel"),
+    ("wasyncore.py", "dispatcher", "del_channel"), ("wasyncore.py", "dispatcher", "set_socket"),
+    ("wasyncore.py", "dispatcher", "accept"), ("wasyncore.py", "dispatcher", "send"),
+    ("wasyncore.py", "dispatcher", "recv"), ("wasyncore.py", "dispatcher", "close"),
+    ("wasyncore.py", "dispatcher", "handle_read_event"), ("wasyncore.py", "dispatcher", "handle_write_event"),
+    ("wasyncore.py", "dispatcher", "handle_expt_event"), ("wasyncore.py", "dispatcher", "handle_error"),
+    ("wasyncore.py", "dispatcher", "handle_close"),
+    ("channel.py", "HTTPChannel", "__init__"), ("channel.py", "HTTPChannel", "writable"),
+    ("channel.py", "HTTPChannel", "readable"), ("channel.py", "HTTPChannel", "handle_write"),
+    ("channel.py", "HTTPChannel", "_flush_exception"), ("channel.py", "HTTPChannel", "handle_read"),
+    ("channel.py", "HTTPChannel", "send_continue"), ("channel.py", "HTTPChannel", "received"),
+    ("channel.py", "HTTPChannel", "_flush_some_if_lockable"), ("channel.py", "HTTPChannel", "_flush_some"),
+    ("channel.py", "HTTPChannel", "handle_close"), ("channel.py", "HTTPChannel", "add_channel"),
+    ("channel.py", "HTTPChannel", "del_channel"), ("channel.py", "HTTPChannel", "write_soon"),
+    ("channel.py", "HTTPChannel", "_flush_outbufs_below_high_watermark"), ("channel.py", "HTTPChannel", "service"),
+    ("server.py", "BaseWSGIServer", "handle_accept"), ("server.py", "BaseWSGIServer", "close"),
+    ("server.py", "BaseWSGIServer", "run"), ("server.py", "BaseWSGIServer", "writable"),
+    ("server.py", "BaseWSGIServer", "handle_read"),
+    ("trigger.py", "_triggerbase", "handle_read"), ("trigger.py", "_triggerbase", "close"),
+    ("trigger.py", "_triggerbase", "handle_close"),
+    ("task.py", "ThreadedTaskDispatcher", "handler_thread"),
+]
+
+
+def _find(tree, cls, fn):
+    body = tree.body
+    if cls is not None:
+        for n in body:
+            if isinstance(n, ast.ClassDef) and n.name == cls:
+                body = n.body
+                break
+        else:
+            return None
+    for n in body:
+        if isinstance(n, ast.FunctionDef) and n.name == fn:
+            return n
+    return None
+
+
+def _expr_tokens(e):
+    """watched names / attributes / calls of an expression, in source order"""
+    out = []
+
+    def walk(n):
+        if isinstance(n, ast.Call):
+            f = n.func
+            name = f.attr if isinstance(f, ast.Attribute) else (f.id if isinstance(f, ast.Name) else None)
+            if isinstance(f, ast.Attribute):
+                walk(f.value)
+            for a in n.args:
+                walk(a)
+            kws = []
+            for k in n.keywords:
+                walk(k.value)
+                if k.arg in ("do_close",):
+                    kws.append("%s=%s" % (k.arg, ast.unparse(k.value)))
+            if name in WATCH_CALLS:
+                out.append("call:%s(%s)" % (name, ",".join(kws)))
+            return
+        if isinstance(n, ast.Attribute):
+            walk(n.value)
+            if n.attr in WATCH_ATTRS:
+                out.append(("w:" if isinstance(n.ctx, (ast.Store, ast.Del)) else "r:") + n.attr)
+            return
+        if isinstance(n, ast.Name):
+            if n.id in WATCH_NAMES:
+                out.append("n:" + n.id)
+            return
+        if isinstance(n, ast.Compare):
+            walk(n.left)
+            for op, c in zip(n.ops, n.comparators):
+                out.append("cmp:" + type(op).__name__)
+                walk(c)
+            return
+        if isinstance(n, ast.BoolOp):
+            out.append("bool:" + type(n.op).__name__)
+        if isinstance(n, ast.UnaryOp) and isinstance(n.op, ast.Not):
+            out.append("not")
+        if isinstance(n, ast.Constant) and isinstance(n.value, (bool, type(None), bytes)):
+            out.append("const:%r" % (n.value,))
+        for c in ast.iter_child_nodes(n):
+            walk(c)
+    walk(e)
+    return out
+
+
+def _stmt_tokens(stmts, out, depth=0):
+    for st in stmts:
+        if isinstance(st, ast.Expr) and isinstance(st.value, ast.Constant) and isinstance(st.value.value, str):
+            continue   # docstring
+        if isinstance(st, ast.With):
+            items = [ast.unparse(i.context_expr) for i in st.items]
+            out.append("with(%s){" % ",".join(items))
+            _stmt_tokens(st.body, out, depth + 1)
+            out.append("}")
+        elif isinstance(st, ast.Try):
+            out.append("try{")
+            _stmt_tokens(st.body, out, depth + 1)
+            for h in st.handlers:
+                out.append("}except(%s){" % (ast.unparse(h.type) if h.type is not None else "*"))
+                _stmt_tokens(h.body, out, depth + 1)
+            if st.orelse:
+                out.append("}else{")
+                _stmt_tokens(st.orelse, out, depth + 1)
+            if st.finalbody:
+                out.append("}finally{")
+                _stmt_tokens(st.finalbody, out, depth + 1)
+            out.append("}")
+        elif isinstance(st, ast.If):
+            out.append("if(%s){" % " ".join(_expr_tokens(st.test)))
+            _stmt_tokens(st.body, out, depth + 1)
+            if st.orelse:
+                out.append("}else{")
+                _stmt_tokens(st.orelse, out, depth + 1)
+            out.append("}")
+        elif isinstance(st, (ast.While, ast.For)):
+            head = _expr_tokens(st.test) if isinstance(st, ast.While) else _expr_tokens(st.iter)
+            out.append("%s(%s){" % ("while" if isinstance(st, ast.While) else "for", " ".join(head)))
+            _stmt_tokens(st.body, out, depth + 1)
+            if st.orelse:
+                out.append("}else{")
+                _stmt_tokens(st.orelse, out, depth + 1)
+            out.append("}")
+        elif isinstance(st, ast.Raise):
+            out.append("raise(%s)" % (" ".join(_expr_tokens(st.exc)) if st.exc is not None else ""))
+        elif isinstance(st, ast.Return):
+            out.append("return(%s)" % (" ".join(_expr_tokens(st.value)) if st.value is not None else ""))
+        elif isinstance(st, (ast.Break, ast.Continue, ast.Pass)):
+            out.append(type(st).__name__.lower())
+        elif isinstance(st, ast.Delete):
+            out.append("del(%s)" % " ".join(t for tg in st.targets for t in _expr_tokens(tg)))
+        elif isinstance(st, (ast.Assign, ast.AugAssign, ast.AnnAssign, ast.Expr)):
+            toks = _expr_tokens(st)
+            if toks:
+                out.append(" ".join(toks))
+        else:
+            toks = _expr_tokens(st)
+            if toks:
+                out.append(type(st).__name__ + ":" + " ".join(toks))
+
+
+def shape_signature(src_dir):
+    """{method: token list}; plus the two module-level tables of wasyncore"""
+    sig = {}
+    trees = {}
+    for fname, cls, fn in SHAPE_METHODS:
+        if fname not in trees:
+            trees[fname] = ast.parse(open(os.path.join(src_dir, "waitress", fname)).read())
+        node = _find(trees[fname], cls, fn)
+        key = "%s:%s.%s" % (fname, cls or "", fn)
+        if node is None:
+            sig[key] = ["<missing>"]
+            continue
+        out = []
+        _stmt_tokens(node.body, out)
+        sig[key] = out
+    for st in trees["wasyncore.py"].body:
+        if isinstance(st, ast.Assign) and isinstance(st.targets[0], ast.Name) and \
+                st.targets[0].id in ("_DISCONNECTED", "_reraised_exceptions"):
+            names = sorted(n.id for n in ast.walk(st.value) if isinstance(n, ast.Name) and n.id not in ("frozenset",))
+            sig["wasyncore.py:" + st.targets[0].id] = names
+    return sig
+
+
+def shape_digest(sig):
+    return hashlib.sha1(repr(sorted(sig.items())).encode()).hexdigest()
+
+
+def detect_wc_close(src_dir):
+    """The do_close with which HTTPChannel.service() reaches _flush_some through send_continue(), read off
+    the source (the model's cfg.wc_close).  Raises ValueError when the shape is not one it understands."""
+    tree = ast.parse(open(os.path.join(src_dir, "waitress", "channel.py")).read())
+
+    def default_of(fn, name):
+        args = fn.args.args
+        defaults = fn.args.defaults
+        off = len(args) - len(defaults)
+        for i, a in enumerate(args):
+            if a.arg == name:
+                if i < off:
+                    return "required"
+                d = defaults[i - off]
+                if isinstance(d, ast.Constant) and isinstance(d.value, bool):
+                    return d.value
+                raise ValueError("default of %s.%s is not a boolean constant" % (fn.name, name))
+        return None
+
+    def kw_of(call, name):
+        for k in call.keywords:
+            if k.arg == name:
+                return k.value
+        return None
+
+    def calls(fn, attr):
+        return [n for n in ast.walk(fn) if isinstance(n, ast.Call) and isinstance(n.func, ast.Attribute)
+                and n.func.attr == attr]
+    service = _find(tree, "HTTPChannel", "service")
+    cont = _find(tree, "HTTPChannel", "send_continue")
+    flush = _find(tree, "HTTPChannel", "_flush_some")
+    if None in (service, cont, flush):
+        raise ValueError("service / send_continue / _flush_some not found")
+    sc = calls(service, "send_continue")
+    fc = calls(cont, "_flush_some")
+    if len(sc) != 1 or len(fc) != 1:
+        raise ValueError("expected one send_continue() call in service and one _flush_some() call in send_continue")
+    if sc[0].args or fc[0].args:
+        raise ValueError("positional arguments in the send_continue / _flush_some calls")
+    inner = kw_of(fc[0], "do_close")
+    if inner is None:
+        v = default_of(flush, "do_close")
+    elif isinstance(inner, ast.Constant) and isinstance(inner.value, bool):
+        v = inner.value
+    elif isinstance(inner, ast.Name) and inner.id == "do_close":
+        outer = kw_of(sc[0], "do_close")
+        if outer is None:
+            v = default_of(cont, "do_close")
+        elif isinstance(outer, ast.Constant) and isinstance(outer.value, bool):
+            v = outer.value
+        else:
+            raise ValueError("do_close passed by service() is not a constant")
+    else:
+        raise ValueError("do_close passed to _flush_some is neither a constant nor the parameter")
+    if not isinstance(v, bool):
+        raise ValueError("cannot determine do_close (%r)" % (v,))
+    return v
+
+
+# the signature of the modelled methods on the tree the model was written against (see shape_signature);
+# the instructions of Model/ChanFault.v transliterate exactly these statements
+EXPECTED_SHAPE = {'channel.py:HTTPChannel.__init__': ['w:outbufs', 'w:sendbuf_len call:getsockopt()', 'n:map call:__init__()', 'w:connected const:True', 'w:requests'],
+ 'channel.py:HTTPChannel._flush_exception': ['if(){',
+                                             'try{',
+                                             'return(call:flush(do_close=do_close) const:False)',
+                                             '}except(OSError){',
+                                             'if(){',
+                                             '}',
+                                             'w:will_close const:True',
+                                             'return(const:False const:True)',
+                                             '}except(Exception){',
+                                             'w:will_close const:True',
+                                             'return(const:False const:True)',
+                                             '}',
+                                             '}',
+                                             'return(const:False const:False)'],
+ 'channel.py:HTTPChannel._flush_outbufs_below_high_watermark': ['if(r:total_outbufs_len cmp:Gt){',
+                                                                'with(self.outbuf_lock){',
+                                                                'const:False call:_flush_exception(do_close=False)',
+                                                                'if(){',
+                                                                'call:pull_trigger()',
+                                                                'call:wait()',
+                                                                'return()',
+                                                                '}',
+                                                                'while(bool:And r:connected r:total_outbufs_len cmp:Gt){',
+                                                                'call:pull_trigger()',
+                                                                'call:wait()',
+                                                                '}',
+                                                                '}',
+                                                                '}'],
+ 'channel.py:HTTPChannel._flush_some': ['const:False',
+                                        'while(const:True){',
+                                        'r:outbufs',
+                                        'while(cmp:Gt){',
+                                        'r:sendbuf_len call:get()',
+                                        'call:send(do_close=do_close)',
+                                        'if(){',
+                                        'const:True call:skip()',
+                                        'w:total_outbufs_len',
+                                        '}else{',
+                                        'const:True',
+                                        'break',
+                                        '}',
+                                        '}else{',
+                                        'if(r:outbufs cmp:Gt){',
+                                        'r:outbufs call:pop()',
+                                        'try{',
+                                        'call:close()',
+                                        '}except(Exception){',
+                                        '}',
+                                        '}else{',
+                                        'const:True',
+                                        '}',
+                                        '}',
+                                        'if(){',
+                                        'break',
+                                        '}',
+                                        '}',
+                                        'if(){',
+                                        'return(const:True)',
+                                        '}',
+                                        'return(const:False)'],
+ 'channel.py:HTTPChannel._flush_some_if_lockable': ['if(const:False call:acquire()){',
+                                                    'try{',
+                                                    'call:_flush_some(do_close=do_close)',
+                                                    'if(r:total_outbufs_len cmp:Lt){',
+                                                    'call:notify()',
+                                                    '}',
+                                                    '}finally{',
+                                                    'call:release()',
+                                                    '}',
+                                                    '}'],
+ 'channel.py:HTTPChannel.add_channel': ['n:map call:add_channel()', 'r:active_channels r:_fileno'],
+ 'channel.py:HTTPChannel.del_channel': ['n:fd r:_fileno',
+                                        'n:map call:del_channel()',
+                                        'n:ac r:active_channels',
+                                        'if(n:fd cmp:In n:ac){',
+                                        'del(n:ac n:fd)',
+                                        '}'],
+ 'channel.py:HTTPChannel.handle_close': ['with(self.outbuf_lock){',
+                                         'for(r:outbufs){',
+                                         'try{',
+                                         'call:close()',
+                                         '}except(Exception){',
+                                         '}',
+                                         '}',
+                                         'w:total_outbufs_len',
+                                         'w:connected const:False',
+                                         'call:notify()',
+                                         '}',
+                                         'call:close()'],
+ 'channel.py:HTTPChannel.handle_read': ['try{',
+                                        'call:recv()',
+                                        '}except(OSError){',
+                                        'if(){',
+                                        '}',
+                                        'call:handle_close()',
+                                        'return()',
+                                        '}',
+                                        'if(){',
+                                        'call:received()',
+                                        '}else{',
+                                        'w:connected const:False',
+                                        '}'],
+ 'channel.py:HTTPChannel.handle_write': ['if(not r:requests){',
+                                         '}else{',
+                                         'if(r:total_outbufs_len cmp:GtE){',
+                                         '}else{',
+                                         'const:None',
+                                         '}',
+                                         '}',
+                                         'call:_flush_exception()',
+                                         'if(bool:And r:close_when_flushed not r:total_outbufs_len){',
+                                         'w:close_when_flushed const:False',
+                                         'w:will_close const:True',
+                                         '}',
+                                         'if(r:will_close){',
+                                         'call:handle_close()',
+                                         '}'],
+ 'channel.py:HTTPChannel.readable': ['return(not bool:Or r:will_close r:close_when_flushed r:requests cmp:Gt r:total_outbufs_len)'],
+ 'channel.py:HTTPChannel.received': ['if(not){',
+                                     'return(const:False)',
+                                     '}',
+                                     'with(self.requests_lock){',
+                                     'if(bool:Or r:will_close r:close_when_flushed){',
+                                     'return(const:False)',
+                                     '}',
+                                     'while(){',
+                                     'if(r:request cmp:Is const:None){',
+                                     'w:request',
+                                     '}',
+                                     'r:request call:received()',
+                                     'if(bool:And r:request r:expect_continue r:request r:headers_finished not r:requests not r:sent_continue){',
+                                     'call:send_continue()',
+                                     '}',
+                                     'if(r:request r:completed){',
+                                     'w:sent_continue const:False',
+                                     'if(not r:request r:empty){',
+                                     'r:requests r:request call:append()',
+                                     'if(r:requests cmp:Eq){',
+                                     'call:add_task()',
+                                     '}',
+                                     '}',
+                                     'w:request const:None',
+                                     '}',
+                                     'if(cmp:GtE){',
+                                     'break',
+                                     '}',
+                                     '}',
+                                     '}',
+                                     'return(const:True)'],
+ 'channel.py:HTTPChannel.send_continue': ['r:request w:expect_continue const:False',
+                                          "const:b'HTTP/1.1 100 Continue\\r\\n\\r\\n'",
+                                          'with(self.outbuf_lock){',
+                                          'r:outbufs call:append()',
+                                          'w:current_outbuf_count',
+                                          'w:total_outbufs_len',
+                                          'w:sent_continue const:True',
+                                          'call:_flush_some()',
+                                          '}'],
+ 'channel.py:HTTPChannel.service': ['r:requests',
+                                    'if(r:error){',
+                                    '}else{',
+                                    '}',
+                                    'try{',
+                                    'if(r:connected){',
+                                    'call:service()',
+                                    '}else{',
+                                    'w:close_on_finish const:True',
+                                    '}',
+                                    '}except(ClientDisconnected){',
+                                    'r:request',
+                                    'w:close_on_finish const:True',
+                                    '}except(Exception){',
+                                    'r:request',
+                                    'if(not){',
+                                    'if(){',
+                                    '}else{',
+                                    '}',
+                                    'w:error',
+                                    'try{',
+                                    '}except(KeyError){',
+                                    'pass',
+                                    '}',
+                                    'try{',
+                                    'call:service()',
+                                    '}except(ClientDisconnected){',
+                                    'w:close_on_finish const:True',
+                                    '}',
+                                    '}else{',
+                                    'w:close_on_finish const:True',
+                                    '}',
+                                    '}',
+                                    'if(r:close_on_finish){',
+                                    'with(self.requests_lock){',
+                                    'w:close_when_flushed const:True',
+                                    'for(r:requests){',
+                                    'call:close()',
+                                    '}',
+                                    'w:requests',
+                                    '}',
+                                    '}else{',
+                                    'if(r:requests cmp:Gt){',
+                                    'call:_flush_outbufs_below_high_watermark()',
+                                    '}',
+                                    'if(r:current_outbuf_count cmp:Gt){',
+                                    'w:current_outbuf_count',
+                                    '}',
+                                    'call:close()',
+                                    'with(self.requests_lock){',
+                                    'r:requests call:pop()',
+                                    'if(bool:And r:connected r:requests){',
+                                    'call:add_task()',
+                                    '}else{',
+                                    'if(bool:And r:connected r:request cmp:IsNot const:None r:request r:expect_continue r:request r:headers_finished '
+                                    'not r:sent_continue){',
+                                    'call:send_continue()',
+                                    '}',
+                                    '}',
+                                    '}',
+                                    '}',
+                                    'if(r:connected){',
+                                    'call:pull_trigger()',
+                                    '}'],
+ 'channel.py:HTTPChannel.writable': ['return(bool:Or r:total_outbufs_len cmp:Gt r:will_close r:close_when_flushed)'],
+ 'channel.py:HTTPChannel.write_soon': ['if(not r:connected){',
+                                       'raise(n:ClientDisconnected)',
+                                       '}',
+                                       'if(){',
+                                       'with(self.outbuf_lock){',
+                                       'call:_flush_outbufs_below_high_watermark()',
+                                       'if(not r:connected){',
+                                       'raise(n:ClientDisconnected)',
+                                       '}',
+                                       'if(){',
+                                       'r:outbufs call:append()',
+                                       'r:outbufs call:append()',
+                                       'w:current_outbuf_count',
+                                       '}else{',
+                                       'if(r:current_outbuf_count cmp:GtE){',
+                                       'r:outbufs call:append()',
+                                       'w:current_outbuf_count',
+                                       '}',
+                                       'r:outbufs call:append()',
+                                       'w:current_outbuf_count',
+                                       '}',
+                                       'w:total_outbufs_len',
+                                       'if(r:total_outbufs_len cmp:GtE){',
+                                       'const:False call:_flush_exception(do_close=False)',
+                                       'if(bool:Or not r:total_outbufs_len cmp:GtE){',
+                                       'call:pull_trigger()',
+                                       '}',
+                                       '}',
+                                       '}',
+                                       'return()',
+                                       '}',
+                                       'return()'],
+ 'server.py:BaseWSGIServer.close': ['call:close()', 'return(call:close())'],
+ 'server.py:BaseWSGIServer.handle_accept': ['try{',
+                                            'call:accept()',
+                                            'if(cmp:Is const:None){',
+                                            'return()',
+                                            '}',
+                                            'call:set_socket_options()',
+                                            '}except(OSError){',
+                                            'if(){',
+                                            'const:True',
+                                            '}',
+                                            'return()',
+                                            '}',
+                                            'call:fix_addr()',
+                                            'r:_map call:channel_class()'],
+ 'server.py:BaseWSGIServer.handle_read': ['pass'],
+ 'server.py:BaseWSGIServer.run': ['try{', 'r:_map', '}except((SystemExit, KeyboardInterrupt)){', '}'],
+ 'server.py:BaseWSGIServer.writable': ['return(const:False)'],
+ 'task.py:ThreadedTaskDispatcher.handler_thread': ['while(const:True){',
+                                                   'with(self.lock){',
+                                                   'while(bool:And not cmp:Eq){',
+                                                   'call:wait()',
+                                                   '}',
+                                                   'if(cmp:Gt){',
+                                                   'call:notify()',
+                                                   'break',
+                                                   '}',
+                                                   '}',
+                                                   'try{',
+                                                   'call:service()',
+                                                   '}except(BaseException){',
+                                                   '}',
+                                                   '}'],
+ 'trigger.py:_triggerbase.close': ['if(not){', 'const:True', 'call:del_channel()', '}'],
+ 'trigger.py:_triggerbase.handle_close': ['call:close()'],
+ 'trigger.py:_triggerbase.handle_read': ['try{',
+                                         'call:recv()',
+                                         '}except(OSError){',
+                                         'return()',
+                                         '}',
+                                         'with(self.lock){',
+                                         'for(){',
+                                         'try{',
+                                         '}except(*){',
+                                         '}',
+                                         '}',
+                                         '}'],
+ 'wasyncore.py:._exception': ['try{',
+                              'call:handle_expt_event()',
+                              '}except(_reraised_exceptions){',
+                              'raise()',
+                              '}except(*){',
+                              'call:handle_error()',
+                              '}'],
+ 'wasyncore.py:.loop': ['if(n:map cmp:Is const:None){',
+                        'n:map',
+                        '}',
+                        'if(bool:And){',
+                        '}else{',
+                        '}',
+                        'if(cmp:Is const:None){',
+                        'while(n:map){',
+                        'n:map',
+                        '}',
+                        '}else{',
+                        'while(bool:And n:map cmp:Gt){',
+                        'n:map',
+                        '}',
+                        '}'],
+ 'wasyncore.py:.poll': ['if(n:map cmp:Is const:None){',
+                        'n:map',
+                        '}',
+                        'if(n:map){',
+                        'for(n:map call:items()){',
+                        'if(){',
+                        'n:fd call:append()',
+                        '}',
+                        'if(bool:And not r:accepting){',
+                        'n:fd call:append()',
+                        '}',
+                        'if(bool:Or){',
+                        'n:fd call:append()',
+                        '}',
+                        '}',
+                        'if(cmp:Eq cmp:Eq cmp:Eq){',
+                        'call:sleep()',
+                        'return()',
+                        '}',
+                        'try{',
+                        'call:select()',
+                        '}except(OSError){',
+                        'if(cmp:NotEq n:EINTR){',
+                        'raise()',
+                        '}else{',
+                        'return()',
+                        '}',
+                        '}',
+                        'for(){',
+                        'n:map n:fd call:get()',
+                        'if(cmp:Is const:None){',
+                        'continue',
+                        '}',
+                        'call:read()',
+                        '}',
+                        'for(){',
+                        'n:map n:fd call:get()',
+                        'if(cmp:Is const:None){',
+                        'continue',
+                        '}',
+                        'call:write()',
+                        '}',
+                        'for(){',
+                        'n:map n:fd call:get()',
+                        'if(cmp:Is const:None){',
+                        'continue',
+                        '}',
+                        'call:_exception()',
+                        '}',
+                        '}'],
+ 'wasyncore.py:.poll2': ['if(n:map cmp:Is const:None){',
+                         'n:map',
+                         '}',
+                         'if(cmp:IsNot const:None){',
+                         '}',
+                         'call:poll()',
+                         'if(n:map){',
+                         'for(n:map call:items()){',
+                         'if(){',
+                         '}',
+                         'if(bool:And not r:accepting){',
+                         '}',
+                         'if(){',
+                         'n:fd call:register()',
+                         '}',
+                         '}',
+                         'try{',
+                         'call:poll()',
+                         '}except(OSError){',
+                         'if(cmp:NotEq n:EINTR){',
+                         'raise()',
+                         '}',
+                         '}',
+                         'for(){',
+                         'n:map n:fd call:get()',
+                         'if(cmp:Is const:None){',
+                         'continue',
+                         '}',
+                         'call:readwrite()',
+                         '}',
+                         '}'],
+ 'wasyncore.py:.read': ['try{', 'call:handle_read_event()', '}except(_reraised_exceptions){', 'raise()', '}except(*){', 'call:handle_error()', '}'],
+ 'wasyncore.py:.readwrite': ['try{',
+                             'if(){',
+                             'call:handle_read_event()',
+                             '}',
+                             'if(){',
+                             'call:handle_write_event()',
+                             '}',
+                             'if(){',
+                             'call:handle_expt_event()',
+                             '}',
+                             'if(){',
+                             'call:handle_close()',
+                             '}',
+                             '}except(OSError){',
+                             'if(cmp:NotIn n:_DISCONNECTED){',
+                             'call:handle_error()',
+                             '}else{',
+                             'call:handle_close()',
+                             '}',
+                             '}except(_reraised_exceptions){',
+                             'raise()',
+                             '}except(*){',
+                             'call:handle_error()',
+                             '}'],
+ 'wasyncore.py:.write': ['try{', 'call:handle_write_event()', '}except(_reraised_exceptions){', 'raise()', '}except(*){', 'call:handle_error()', '}'],
+ 'wasyncore.py:_DISCONNECTED': ['EBADF', 'ECONNABORTED', 'ECONNRESET', 'ENOTCONN', 'EPIPE', 'ESHUTDOWN'],
+ 'wasyncore.py:_reraised_exceptions': ['ExitNow', 'KeyboardInterrupt', 'SystemExit'],
+ 'wasyncore.py:dispatcher.__init__': ['if(n:map cmp:Is const:None){',
+                                      'w:_map',
+                                      '}else{',
+                                      'w:_map n:map',
+                                      '}',
+                                      'w:_fileno const:None',
+                                      'if(){',
+                                      'call:setblocking()',
+                                      'n:map call:set_socket()',
+                                      '}else{',
+                                      'w:socket const:None',
+                                      '}'],
+ 'wasyncore.py:dispatcher.accept': ['try{',
+                                    'r:socket call:accept()',
+                                    '}except(TypeError){',
+                                    'return(const:None)',
+                                    '}except(OSError){',
+                                    'if(cmp:In n:EWOULDBLOCK n:ECONNABORTED n:EAGAIN){',
+                                    'return(const:None)',
+                                    '}else{',
+                                    'raise()',
+                                    '}',
+                                    '}else{',
+                                    'return()',
+                                    '}'],
+ 'wasyncore.py:dispatcher.add_channel': ['if(n:map cmp:Is const:None){', 'n:map r:_map', '}', 'n:map r:_fileno'],
+ 'wasyncore.py:dispatcher.close': ['w:connected const:False',
+                                   'w:accepting const:False',
+                                   'w:connecting const:False',
+                                   'call:del_channel()',
+                                   'if(r:socket cmp:IsNot const:None){',
+                                   'try{',
+                                   'r:socket call:close()',
+                                   '}except(OSError){',
+                                   'if(cmp:NotIn n:ENOTCONN n:EBADF){',
+                                   'raise()',
+                                   '}',
+                                   '}',
+                                   'w:socket const:None',
+                                   '}'],
+ 'wasyncore.py:dispatcher.del_channel': ['n:fd r:_fileno',
+                                         'if(n:map cmp:Is const:None){',
+                                         'n:map r:_map',
+                                         '}',
+                                         'if(n:fd cmp:In n:map){',
+                                         'del(n:map n:fd)',
+                                         '}',
+                                         'w:_fileno const:None'],
+ 'wasyncore.py:dispatcher.handle_close': ['call:close()'],
+ 'wasyncore.py:dispatcher.handle_error': ['try{', '}except(*){', '}', 'call:handle_close()'],
+ 'wasyncore.py:dispatcher.handle_expt_event': ['r:socket cmp:IsNot const:None r:socket call:getsockopt()',
+                                               'if(cmp:NotEq){',
+                                               'call:handle_close()',
+                                               '}else{',
+                                               'call:handle_expt()',
+                                               '}'],
+ 'wasyncore.py:dispatcher.handle_read_event': ['if(r:accepting){',
+                                               'call:handle_accept()',
+                                               '}else{',
+                                               'if(not r:connected){',
+                                               'if(r:connecting){',
+                                               'call:handle_connect_event()',
+                                               '}',
+                                               'call:handle_read()',
+                                               '}else{',
+                                               'call:handle_read()',
+                                               '}',
+                                               '}'],
+ 'wasyncore.py:dispatcher.handle_write_event': ['if(r:accepting){',
+                                                'return()',
+                                                '}',
+                                                'if(not r:connected){',
+                                                'if(r:connecting){',
+                                                'call:handle_connect_event()',
+                                                '}',
+                                                '}',
+                                                'call:handle_write()'],
+ 'wasyncore.py:dispatcher.recv': ['try{',
+                                  'r:socket call:recv()',
+                                  'if(not){',
+                                  'call:handle_close()',
+                                  "return(const:b'')",
+                                  '}else{',
+                                  'return()',
+                                  '}',
+                                  '}except(OSError){',
+                                  'if(cmp:In n:_DISCONNECTED){',
+                                  'call:handle_close()',
+                                  "return(const:b'')",
+                                  '}else{',
+                                  'raise()',
+                                  '}',
+                                  '}'],
+ 'wasyncore.py:dispatcher.send': ['try{',
+                                  'r:socket call:send()',
+                                  'return()',
+                                  '}except(OSError){',
+                                  'if(cmp:Eq n:EWOULDBLOCK){',
+                                  'return()',
+                                  '}else{',
+                                  'if(cmp:In n:_DISCONNECTED){',
+                                  'if(){',
+                                  'call:handle_close()',
+                                  '}',
+                                  'return()',
+                                  '}else{',
+                                  'raise()',
+                                  '}',
+                                  '}',
+                                  '}'],
+ 'wasyncore.py:dispatcher.set_socket': ['w:socket', 'w:_fileno', 'n:map call:add_channel()']}
+
+
+def shape_audit(src_dir):
+    """-> (list of methods whose signature differs from EXPECTED_SHAPE, signature).  The do_close knob of the
+    worker-side send_continue() is not part of the comparison: it is read by detect_wc_close and given to the model."""
+    def norm(key, toks):
+        if key.endswith("HTTPChannel.service"):
+            return [t.replace("call:send_continue(do_close=False)", "call:send_continue()")
+                     .replace("call:send_continue(do_close=True)", "call:send_continue()") for t in toks]
+        if key.endswith("HTTPChannel.send_continue"):
+            return [t.replace("call:_flush_some(do_close=do_close)", "call:_flush_some()") for t in toks]
+        return toks
+    sig = shape_signature(src_dir)
+    diff = []
+    for k in sorted(set(sig) | set(EXPECTED_SHAPE)):
+        if norm(k, sig.get(k, ["<missing>"])) != norm(k, EXPECTED_SHAPE.get(k, ["<unexpected>"])):
+            diff.append(k)
+    return diff, sig
+
+
+# ---------------------------------------------------------------------------------
+# scenarios, fault placements, the C13 monitor, replays
+
+GET = b"GET /a HTTP/1.1\r\nHost: x\r\n\r\n"
+GET2 = b"GET /c HTTP/1.1\r\nHost: x\r\n\r\n"
+GETCLOSE = b"GET /a HTTP/1.1\r\nHost: x\r\nConnection: close\r\n\r\n"
+POSTH = b"POST /b HTTP/1.1\r\nHost: x\r\nContent-Length: 5\r\nExpect: 100-continue\r\n\r\n"
+POSTBODY = b"hello"
+BAD = b"GARBAGE\r\n\r\n"
+ADJ0 = {"outbuf_high_watermark": 2000}
+
+# JSON-able scenario: scripts {fd: [[kind, arg...]]} with bytes as hex; bodies {path: [chunk sizes]}
+SCENARIOS = {
+    "get-close": {"scripts": {7: [["send", GET.hex()], ["wait_wire", 60], ["close"]]}},
+    "get-expect-pipelined": {"scripts": {7: [["send", (GET + POSTH).hex()], ["wait_wire", 100], ["send", POSTBODY.hex()],
+                                            ["wait_wire", 200], ["close"]]}},
+    "expect-alone": {"scripts": {7: [["send", POSTH.hex()], ["wait_wire", 20], ["send", POSTBODY.hex()],
+                                    ["wait_wire", 100], ["close"]]}},
+    "two-pipelined": {"scripts": {7: [["send", (GET + GET2).hex()], ["wait_wire", 150], ["close"]]}},
+    "pending-output": {"scripts": {7: [["stall"], ["send", GET.hex()], ["resume"], ["wait_wire", 1000], ["close"]]},
+                       "bodies": {"/a": [900, 900]}, "adj": {"outbuf_high_watermark": 1000}},
+    "conn-close": {"scripts": {7: [["send", GETCLOSE.hex()], ["wait_wire", 60]]}},
+    "bad-request": {"scripts": {7: [["send", BAD.hex()], ["wait_wire", 60]]}},
+    "app-raises": {"scripts": {7: [["send", GET.hex()], ["wait_wire", 60], ["close"]]}, "raises": ["/a"]},
+    "oob": {"scripts": {7: [["send", GET.hex()], ["oob"], ["wait_wire", 60], ["close"]]}},
+    "hup": {"scripts": {7: [["send", GET.hex()], ["wait_wire", 60], ["hup"]]}, "use_poll": True},
+    "two-conns": {"scripts": {7: [["send", (GET + POSTH).hex()], ["wait_wire", 100], ["close"]],
+                              8: [["send", GET.hex()], ["send", GET2.hex()], ["wait_wire", 190], ["close"]]}},
+    "two-conns-b": {"scripts": {7: [["send", GET.hex()], ["wait_wire", 60], ["close"]],
+                                8: [["send", (GET + GET2).hex()], ["wait_wire", 190], ["close"]]}},
+}
+
+
+def _script(js):
+    out = []
+    for st in js:
+        if st[0] == "send":
+            out.append(("send", bytes.fromhex(st[1])))
+        else:
+            out.append(tuple(st))
+    return out
+
+
+def _plan(js):
+    return [tuple(x) if isinstance(x, list) else x for x in (js or [])]
+
+
+def make_world(case, schedule=(), policy=None, max_steps=4000):
+    """case: {"scenario": name | dict, "send_plans": {fd: [...]}, "recv_faults": {fd: {k: errno}},
+              "soerr_plans": {fd: [...]}, "n_workers": int, "use_poll": bool}"""
+    sc = case["scenario"]
+    if isinstance(sc, str):
+        sc = SCENARIOS[sc]
+    bodies = {p: ("200 OK", None, [b"x" * n for n in sizes]) for p, sizes in (sc.get("bodies") or {}).items()}
+    adj = dict(ADJ0)
+    adj.update(sc.get("adj") or {})
+    k = lambda d: {int(a): b for a, b in (d or {}).items()}
+    w = FaultWorld(simple_app(bodies), {int(fd): _script(s) for fd, s in sc["scripts"].items()},
+                   schedule=schedule, policy=policy, adj_kw=adj, n_workers=case.get("n_workers", 1),
+                   send_plans={fd: _plan(p) for fd, p in k(case.get("send_plans")).items()},
+                   recv_faults={fd: {int(i): e for i, e in f.items()} for fd, f in k(case.get("recv_faults")).items()},
+                   soerr_plans={fd: _plan(p) for fd, p in k(case.get("soerr_plans")).items()},
+                   use_poll=bool(case.get("use_poll", sc.get("use_poll", False))), max_steps=max_steps, sndbuf=4096)
+    w.app_raises = set(sc.get("raises") or [])
+    return w
+
+
+def monitor(world, reference_wire=None):
+    """The executable form of C13's predicates over one real run.
+    -> (problems, in_f18_class): problems is a list of (kind, detail)"""
+    ev = world.sched.events
+    problems = []
+    wcont = any(e[1] == "send_continue" and e[0] != "io" for e in ev)
+    for e in ev:
+        if e[1] == "io_loop_died":
+            problems.append(("loop_died", e[2]))
+        if e[1] in ("close", "map_del", "act_del", "bufs_closed") and e[0] != "io":
+            problems.append(("teardown_by_worker", (e[1], e[0], e[2] if not isinstance(e[2], tuple) else e[2][0])))
+        if e[1] == "crash" and e[0].startswith("waitress"):
+            problems.append(("worker_died", (e[0], e[2])))
+    for fd, sk in world.socks.items():
+        ncl = sum(1 for e in ev if e[1] == "close" and e[2] == fd)
+        nmd = sum(1 for e in ev if e[1] == "map_del" and e[2] == fd)
+        if ncl > 1:
+            problems.append(("closed_twice", fd))
+        if nmd > 1:
+            problems.append(("map_del_twice", fd))
+        ch = world.channels.get(fd)
+        if ch is not None and sk.closed:
+            if world.map.get(fd) is ch or world.server.active_channels.get(fd) is ch:
+                problems.append(("closed_but_polled", fd))
+            if not ch._bufs_closed:
+                problems.append(("closed_but_buffers_open", fd))
+    fin = getattr(world, "final", None)
+    if fin is not None:
+        if fin["workers_dead"]:
+            problems.append(("worker_died", fin["workers_dead"]))
+        if not fin["trigger_in_map"]:
+            problems.append(("trigger_gone", None))
+    if reference_wire is not None:
+        for fd, ref in reference_wire.items():
+            got = world.socks[fd].wire
+            done = world.verdict == "blocked" and not any(b[0] == "client%d" % fd for b in world.blocked_at_end)
+            if (done and got != ref) or not ref.startswith(got):
+                problems.append(("other_connection_disturbed", (fd, len(got), len(ref))))
+    return problems, wcont
+
+
+def count_calls(case):
+    """socket calls of the fault-free default-schedule run: {fd: (nrecv, nsend)}"""
+    base = {k: v for k, v in case.items() if k not in ("send_plans", "recv_faults", "soerr_plans")}
+    w = make_world(base)
+    w.run()
+    return {fd: (sk.nrecv, sk.nsend) for fd, sk in w.socks.items()}, w
+
+
+def placements(calls, fds=None):
+    """all single fault placements: (fd, "recv"|"send", k, errno)"""
+    out = []
+    for fd, (nr, ns) in sorted(calls.items()):
+        if fds is not None and fd not in fds:
+            continue
+        for k in range(nr + 1):
+            for e in FAULT_ERRNOS:
+                out.append((fd, "recv", k, e))
+        for k in range(ns):
+            for e in FAULT_ERRNOS:
+                out.append((fd, "send", k, e))
+            out.append((fd, "send", k, "partial"))
+    return out
+
+
+def apply_placements(case, pls):
+    c = dict(case)
+    sp = {int(k): list(v) for k, v in (case.get("send_plans") or {}).items()}
+    rf = {int(k): dict(v) for k, v in (case.get("recv_faults") or {}).items()}
+    for fd, what, k, e in pls:
+        if what == "recv":
+            rf.setdefault(fd, {})[k] = e
+        else:
+            plan = sp.setdefault(fd, [])
+            while len(plan) <= k:
+                plan.append(None)
+            plan[k] = 1 if e == "partial" else ["err", e]
+    c["send_plans"] = {str(k): v for k, v in sp.items()}
+    c["recv_faults"] = {str(k): {str(i): e for i, e in v.items()} for k, v in rf.items()}
+    return c
+
+
+def listener_monitor(world, exps):
+    problems = []
+    setup_fault = any(e[1] == "setup_ans" and e[2][1] in ("getsockopt", "setblocking") and e[2][2] != "c0"
+                      for e in world.sched.events)
+    for (_, _, (what, srv)) in exps:
+        if not all(srv.values()):
+            problems.append(("listener_closed", srv))
+            break
+    if world.io_error is not None:
+        problems.append(("loop_died", repr(world.io_error)))
+    return problems, setup_fault
